@@ -10,6 +10,8 @@ pub const NAME_POOL: &[&str] = &[
     "a", "b", "c", "aa", "ab", "Ab", "A", ".h", "a.b", "a b", "é", "日", "a*b", "[a]", "{a}",
     "a,b", "a\nb", "b.txt", "x.txt", "B", "a\\b", "1", "É", "-a", "a ", "~", "a:b", "e\u{301}",
     "aaaaaaaaaaaaaaaaaaaaaaaaaaaaaaaaaaaaaaaaaaaaaaaaaaaaaaaaaaaaaaaaaaaaaaaaaaaaaaaaaaaaaaaaaaaaaaaaaaaaaaaaaaaaaaaaaaaaaaaaaaaaaaaa",
+    // 250 bytes (NAME_MAX is 255)
+    "bcbcbcbcbcbcbcbcbcbcbcbcbcbcbcbcbcbcbcbcbcbcbcbcbcbcbcbcbcbcbcbcbcbcbcbcbcbcbcbcbcbcbcbcbcbcbcbcbcbcbcbcbcbcbcbcbcbcbcbcbcbcbcbcbcbcbcbcbcbcbcbcbcbcbcbcbcbcbcbcbcbcbcbcbcbcbcbcbcbcbcbcbcbcbcbcbcbcbcbcbcbcbcbcbcbcbcbcbcbcbcbcbcbcbcbcbcbcbcbcbcbcbcbcbcbcbc",
 ];
 
 #[derive(Clone, Copy, Debug, PartialEq, Eq)]
@@ -110,7 +112,7 @@ impl<'a> Gen<'a> {
         match self.rng.below(160) {
             0 => {
                 let d = self.rng.pick(&dirs).clone();
-                let k = self.rng.range(64, 300);
+                let k = if self.rng.chance(1, 5) { self.rng.range(900, 1100) } else { self.rng.range(64, 300) };
                 for i in 0..k {
                     let path = join(&d, &format!("w{}", i));
                     let kind = if self.rng.chance(1, 6) { Kind::Dir } else { Kind::File };
